@@ -16,6 +16,7 @@ package base
 
 import (
 	"sync"
+	"sync/atomic"
 
 	"github.com/pkg/errors"
 
@@ -35,6 +36,9 @@ type SentinelEntry struct {
 	sc *SlotChain
 
 	exitCtl sync.Once
+	// exited becomes 1 when the first Exit hands the context back for reuse;
+	// from then on the context may belong to another entry.
+	exited uint32
 }
 
 func NewSentinelEntry(ctx *EntryContext, rw *ResourceWrapper, sc *SlotChain) *SentinelEntry {
@@ -51,13 +55,13 @@ func (e *SentinelEntry) WhenExit(exitHandler ExitHandler) {
 }
 
 func (e *SentinelEntry) SetError(err error) {
-	if e.ctx != nil {
+	if e.ctx != nil && atomic.LoadUint32(&e.exited) == 0 {
 		e.ctx.SetError(err)
 	}
 }
 
 func (e *SentinelEntry) SetPair(key, val interface{}) {
-	if e.ctx != nil {
+	if e.ctx != nil && atomic.LoadUint32(&e.exited) == 0 {
 		e.ctx.SetPair(key, val)
 	}
 }
@@ -97,6 +101,7 @@ func (e *SentinelEntry) Exit(exitOps ...ExitOption) {
 			if err := recover(); err != nil {
 				logging.Error(errors.Errorf("%+v", err), "Sentinel internal panic in SentinelEntry.Exit()")
 			}
+			atomic.StoreUint32(&e.exited, 1)
 			if e.sc != nil {
 				e.sc.RefurbishContext(ctx)
 			}
